@@ -46,6 +46,7 @@ type lfsServer struct {
 	nextLock int
 	user     string // who the requests are from (set by the harness before each command)
 	lockMode string // ok | 404 | 501 | 500 | 403
+	unlockMode string // "" / ok, or the status with which the NEXT unlock request is refused (one shot; the lock stays)
 	lastUploadAction map[string]string
 	pageSize int    // > 0: lock lists and lock verification are paginated (next_cursor = offset of the next page)
 	hashAlgo string // != "": `hash_algo` of every batch response (from the hashAlgoFrom-th one on)
@@ -417,6 +418,12 @@ func (s *lfsServer) handle(w http.ResponseWriter, r *http.Request) {
 			Force bool `json:"force"`
 		}
 		json.Unmarshal(body, &req)
+		if s.unlockMode != "" && s.unlockMode != "ok" {
+			st := map[string]int{"404": 404, "501": 501, "500": 500, "403": 403}[s.unlockMode]
+			s.unlockMode = ""
+			w.WriteHeader(st) // refused: nothing is released
+			return
+		}
 		for i, l := range s.locks {
 			if l.ID == id {
 				if l.Owner != s.user && !req.Force {
